@@ -15,6 +15,10 @@ S2  : voter-level stage in a CERTIFICATE round (driver `votecert`: the real ucon
       through the real Voter; same monitor (plus CertOnlyAfterPrecommitQuorum), conformance with VoteCount_Trace2.cfg.
 S3  : voter-level stage in an ordinary round with five (thorough: six) round indices and one block staying the candidate: the
       ring of four tallies (MaxVoteCacheCount) and the recycling of the oldest one, modelled in VoteCount.tla (Ring, Advance).
+S4  : BLS stage (driver `votecert`, BLS world): real BLS signing, two REAL look-back validator sets ordered differently (stake /
+      certificate look-back), real VRF proofs; a peer's real voter must accept every vote the node emits (OwnVoteVerifiesAtPeer);
+      the sets packed at every commit go through the header verifier's vote check, Server.verifyVotes of an independent engine
+      (CommitVerifies) -- certificate round (round 32768), and an ordinary round committing in index 5 on the recycled tally.
 U   : growth stage UconNet (checks/uconnet.py): spec/UconNet.tla checked at design level (thorough), and spec/UconNet_Mon.tla on
       the merged traces of the repository's six-node tests TestUcon (quick, thorough) and TestFork (thorough).
 T   : the driver `votecount` feeds every behaviour to the real ucon engine (real chain, real Server assembled without timers,
@@ -39,6 +43,7 @@ CONSTANTS
   Replay = %(Replay)s
   Skew = %(Skew)s
   KSet = %(KSet)s
+  GVFocus = "%(GVFocus)s"
   Ring = 4
   MaxLost = %(MaxLost)d
   FutureJudged = %(FutureJudged)s
@@ -56,7 +61,7 @@ FUTURE_CERT = '{"equivocator_future_vote"}'  # remains at design level: certific
 
 
 def cfg(mode, **kw):
-    d = dict(WSel="c", Blocks=AB, MaxI=1, MaxMsgs=4, Cert="FALSE", Creds=OK, Mode=mode, MaxOps=0, Known="{}", Replay=REPLAY, Skew='{"judged"}', MaxLost=1, FutureJudged="TRUE", KSet='{"Prevote", "Precommit", "Cert"}')
+    d = dict(WSel="c", Blocks=AB, MaxI=1, MaxMsgs=4, Cert="FALSE", Creds=OK, Mode=mode, MaxOps=0, Known="{}", Replay=REPLAY, Skew='{"judged"}', MaxLost=1, FutureJudged="TRUE", KSet='{"Prevote", "Precommit", "Cert"}', GVFocus="recv")
     d.update(kw)
     if mode == "M":
         d["head"], d["tail"] = "SPECIFICATION Spec", INVS
@@ -97,7 +102,7 @@ def generate(ctx):
     runs = [("M_oneindex", dict())]
     if quick:
         # certificate rounds: exhaustively checked in the quick tier by GV2_oneblock (stage 2), which carries the invariants
-        runs += [("M_twoindices", dict(MaxI=2, MaxMsgs=3)), ("M_badcred", dict(MaxI=2, MaxMsgs=2, Creds=BOTH))]
+        runs += [("M_badcred", dict(MaxI=2, MaxMsgs=2, Creds=BOTH))]      # two indices, valid and invalid credentials
     else:
         runs += [("M_cert", dict(Cert="TRUE")), ("M_twoindices_badcred", dict(MaxI=2, MaxMsgs=3, Creds=BOTH)),
                  ("M_cert_twoindices", dict(Cert="TRUE", MaxI=2, MaxMsgs=3, Known=FUTURE_CERT)),
@@ -130,7 +135,7 @@ def generate(ctx):
     # G: simulated behaviours over the fixture's weight table (2,3,4,5,6 ; T=20 ; quorum 13), three alphabets
     rnd = random.Random(ctx.seed)
     num = 500 if quick else 4000
-    cap = 70 if quick else 1000
+    cap = 55 if quick else 1000
     for name, kw, depth in (("G2_oneblock", dict(Blocks='{"A"}'), 12), ("G2_twoblocks", dict(), 15),
                             ("G2_twoindices", dict(MaxI=2, Creds=BOTH), 18)):
         g = ctx.tlc_must("VoteCount", cfg("G", WSel="a", MaxMsgs=depth, MaxOps=depth, **kw), name=name, timeout=1500,
@@ -286,6 +291,59 @@ def stage3(ctx):
     voter_level(ctx, "3", behs, "VoteCount_Trace3.cfg", ok, ("PrecommitOnlyAfterPrevoteQuorum",))
 
 
+def stage4(ctx):
+    """BLS stage (driver votecert, BLS world): the real Voter with BLS signing, two real look-back validator sets that are ordered
+    differently (stake look-back / certificate look-back), real VRF proofs; every emitted vote is shown to a peer's real voter,
+    every CommitEvent's packed sets go through the header verifier's vote check (Server.verifyVotes of an independent engine).
+    Behaviours: one into every distinct design state an announced commit produces (mode GV, focus "commit")."""
+    quick = ctx.quick
+    base = dict(WSel="g", Blocks='{"B"}', Skew='{"judged"}', FutureJudged="FALSE", Replay="{}", GVFocus="commit", Known=AFTERQ)
+    rnd = random.Random(ctx.seed)
+
+    def gen(name, **kw):
+        d = dict(base)
+        d.update(kw)
+        m = ctx.tlc_must("VoteCount", cfg("GV", **d), name=name, timeout=3000)
+        if m.violated:
+            raise vlib.Undecided("stage 4: design run %s violates %s" % (name, m.violated))
+        hs = [v["h"] for v in m.printed if isinstance(v, dict) and v.get("kind") == "B"]
+        hs.sort(key=lambda h: json.dumps(h, sort_keys=True))
+        return hs
+
+    def bls(hs):
+        out = []
+        for h in hs:
+            h = [dict(o) for o in h]
+            h[0]["bls"] = True
+            out.append(h)
+        return out
+
+    # certificate round, two indices
+    # (one behaviour costs ~0.1 s: about eight BLS pairings -- the quick tier takes a seeded sample, every member of which has
+    #  the node's own certificate vote and a commit whose packed sets are verified)
+    hs = gen("GV4_cert_commits", Cert="TRUE", MaxI=2, MaxMsgs=4)
+    rnd.shuffle(hs)
+    if not quick:
+        h2 = gen("GV4_cert_commits_2blocks", Cert="TRUE", MaxI=2, MaxMsgs=4, Blocks=AB)
+        rnd.shuffle(h2)
+        hs += h2[:400]
+    else:
+        hs = hs[:60]
+    ctx.note("stage 4 (BLS, certificate round, two look-back orders): %d behaviours ending in a commit" % len(hs))
+    voter_level(ctx, "4c", bls(hs), "VoteCount_Trace2.cfg", True, ("CommitVerifies", "OwnVoteVerifiesAtPeer", "CertOnlyAfterPrecommitQuorum"))
+    # ordinary round, five indices: commits in the index that reuses the tally object of index 1
+    hs = gen("GV4_ring_commits", Cert="FALSE", MaxI=5, MaxMsgs=3, KSet='{"Prevote", "Precommit"}')
+    late = [h for h in hs if sum(1 for o in h if o["op"] == "NextIdx") >= 4]
+    # votes of the same block stored in index 1, whose tally object index 5 reuses
+    stale = [h for h in late if any(o["op"] == "Recv" and o["i"] == 1 and o["k"] == "Precommit" for o in h)]
+    rest = [h for h in late if not any(o["op"] == "Recv" and o["i"] == 1 and o["k"] == "Precommit" for o in h)]
+    rnd.shuffle(stale)
+    rnd.shuffle(rest)
+    late = (stale[:60] + rest[:10]) if quick else (stale + rest[:400])
+    ctx.note("stage 4 (BLS, ordinary round, commit in index 5 on the recycled tally): %d behaviours" % len(late))
+    voter_level(ctx, "4r", bls(late), "VoteCount_Trace3.cfg", True, ("CommitVerifies", "EquivocatorWeightless"))
+
+
 def voter_level(ctx, tag, behs, tracecfg, ok, must_fire):
     """Drive behaviours through the real Voter (driver votecert), judge with VoteCount_Mon, conformance with `tracecfg`."""
     bpath = ctx.path("behaviours%s.ndjson" % tag)
@@ -343,11 +401,11 @@ def run(ctx):
         raise vlib.Undecided("design-level counterexample did not reproduce on the real code: specification drift")
     stage2(ctx)
     stage3(ctx)
+    stage4(ctx)
     # growth stage UconNet (see checks/uconnet.py): the composition at design level, and the C02/C03 clauses plus Agreement
     # on the traces of the repository's own six-node tests (real concurrency), recorded by the verifTrace hooks in voter.go
     if ctx.quick:
-        # TestUcon alone takes ~25 s; a slow machine must not turn the quick tier undecided: not strict here
-        uconnet.six_nodes(ctx, ["TestUcon"], timeout=200, strict=False)
+        pass    # the six-node stage costs ~25 s (TestUcon): thorough tier only, the quick tier's budget goes to the voter-level stages
     else:
         uconnet.design(ctx)
         uconnet.six_nodes(ctx, ["TestUcon", "TestFork"], timeout=900, strict=True)
